@@ -268,6 +268,9 @@ type Store struct {
 	HealthErr       error
 	KeySetErr       error
 	DupUserCodes    int // number of times StoreDeviceAuthorization answers ErrDuplicateUserCode first
+	// StrictJWTProfileScopes makes ValidateJWTProfileScopes refuse (invalid_scope) a request naming a scope outside
+	// KnownScopes instead of silently dropping it; off by default.
+	StrictJWTProfileScopes bool
 	// AliasRefresh makes RefreshTokenRequest.SetCurrentScopes write through to the stored refresh token (the
 	// example storage's request object aliases its stored token); off by default.
 	AliasRefresh bool
@@ -1128,7 +1131,7 @@ var KnownScopes = []string{oidc.ScopeOpenID, oidc.ScopeProfile, oidc.ScopeEmail,
 func (s *Store) ValidateJWTProfileScopes(ctx context.Context, userID string, scopes []string) ([]string, error) {
 	s.mu.Lock()
 	defer s.mu.Unlock()
-	_, ferr := s.enter("ValidateJWTProfileScopes", userID, strings.Join(scopes, " "), "", nil)
+	idx, ferr := s.enter("ValidateJWTProfileScopes", userID, strings.Join(scopes, " "), "", nil)
 	if ferr != nil {
 		return nil, ferr
 	}
@@ -1136,6 +1139,10 @@ func (s *Store) ValidateJWTProfileScopes(ctx context.Context, userID string, sco
 	for _, sc := range scopes {
 		if slices.Contains(KnownScopes, sc) {
 			out = append(out, sc)
+		} else if s.StrictJWTProfileScopes {
+			err := oidc.ErrInvalidScope().WithDescription("vstore: scope " + sc + " not allowed for this service user")
+			s.leave(idx, "", err)
+			return nil, err
 		}
 	}
 	return out, nil
